@@ -158,6 +158,17 @@ def operand_values(draw, ins, line_kinds):
             vals[o] = draw(st.one_of(st.sampled_from([0.0, 0.01, 100.0, 1234.56, 99999.99]),
                                      st.integers(0, 50000000).map(lambda c: c / 100.0)))
     e = ins.expr
+    if e[0] == 'roundup':
+        inner = e[1]
+        a, b = inner[1], inner[2]
+        mode = draw(st.sampled_from(['free', 'multiple', 'multiple', 'just_above', 'below']))
+        if mode == 'multiple':
+            vals[b] = round(vals[a] + 1000.0 * draw(st.integers(0, 40)), 2)
+        elif mode == 'just_above':
+            vals[b] = round(vals[a] + 1000.0 * draw(st.integers(0, 40)) + draw(st.sampled_from([0.01, 1.0, 425.0, 999.99])), 2)
+        elif mode == 'below':
+            vals[b] = round(max(0.0, vals[a] - draw(st.integers(0, 5000))), 2)
+        return vals
     if e[0] == 'floor0' and draw(st.booleans()):
         for o in ops:
             if line_kinds.get(o) != 'int':
@@ -197,7 +208,15 @@ def check_isolated(ctx, year, fname, ln, line, ins, src, vals):
     if want is None:
         return 'na'
     ctx.case()
-    if abs(float(got) - want) > tolerance(line):
+    alt = None
+    if ins.expr[0] == 'roundup':
+        # binary floating point: 4234.56 - 1234.56 is 3000.0000000000005; a definition working in floats may
+        # legitimately see "not a multiple" there. Both readings of such an operand pair are accepted.
+        import math
+        inner = ins.expr[1]
+        d_ = float(vals[inner[2]]) - float(vals[inner[1]])
+        alt = 0.0 if d_ <= 0 else math.ceil(d_ / ins.expr[2]) * ins.expr[2]
+    if abs(float(got) - want) > tolerance(line) and not (alt is not None and abs(float(got) - alt) <= tolerance(line)):
         base = fname.split(':')[0]
         ctx.violation(f'{year}:{base}.{ln}', f'{year} {fname} line {ln}: instruction "{ins.text[:110]}" [{src}] gives {want:.2f} on {vals}, the definition returns {got}',
                       {'mode': 'isolated', 'year': year, 'form': fname, 'line': ln, 'operands': vals})
@@ -207,6 +226,9 @@ def check_isolated(ctx, year, fname, ln, line, ins, src, vals):
             branch = '|floor' if vals[ins.expr[2]] <= vals[ins.expr[1]] else '|pos'
         if ins.expr[0] == 'floor0':
             branch = '|floor' if want == 0 else '|pos'
+        if ins.expr[0] == 'roundup':
+            d_ = vals[ins.expr[1][2]] - vals[ins.expr[1][1]]
+            branch = '|floor' if d_ <= 0 else ('|exact-multiple' if round(d_ * 100) % 100000 == 0 else '|rounded-up')
         ctx.nt(f'{year}|{fname}|{ln}|{sorted(vals.items())}')
         ctx.note('lines_checked_nontrivially', f'{year}:{fname.split(":")[0]}.{ln}{branch}')
     return 'checked'
@@ -385,18 +407,49 @@ def check_solution(ctx, year, r, case):
                         ctx.nt(f'{year}|carry|{name}|{vals[name]}')
 
 
+def check_includes(ctx, year, r, case):
+    """'also include this amount on Form 1040, line 4b': the target holds at least
+    the sum of all amounts that are to be included in it (amounts are non-negative)"""
+    cat = catalog.get(year)
+    vals = r.values
+    sums = {}
+    for fname in sorted(r.forms):
+        cat.ensure(fname)
+        form = cat.forms.get(fname)
+        if form is None:
+            continue
+        instrs, _ = instructions_for(year, fname, form, cat)
+        for ln, (ins, src) in instrs.items():
+            name = f'{fname}.{ln}'
+            if name in vals and isinstance(vals[name], float) and vals[name] > 0:
+                for (tform, tline) in ins.include:
+                    sums.setdefault(f'{tform}.{tline}', []).append((name, vals[name]))
+    for target, parts in sums.items():
+        if target in vals:
+            ctx.case()
+            total = sum(v for _, v in parts)
+            if float(vals[target]) < total - 0.011:
+                ctx.violation(f'{year}:include:{target}', f'{year}: {target} = {vals[target]} but the amounts that are to be included in it add up to {total:.2f} ({parts})',
+                              dict(case, mode='e2e', line=target))
+            ctx.nt(f'{year}|include|{target}|{parts}')
+            ctx.note('lines_checked_nontrivially', f'{year}:{target}|includes')
+
+
 def shard_e2e(ctx, k, payload):
     n, seed = payload
 
     def body(data):
         p = data.draw(scenario.personas())
         p['amount_bias'] = data.draw(st.sampled_from(['typical', 'typical', 'large', 'small']))
+        if data.draw(st.integers(0, 5)) == 0:
+            p.update(status='MarriedFilingJointly', ira='8606', n_r=2, both_spouses_1099r=True)
         sc, r = scenario.build(p, data.draw)
         if r.exc is not None or not r.verdict:
             ctx.count('e2e:not_solved')
             return
         ctx.count('e2e:solved_returns')
         check_solution(ctx, sc['year'], r, {'scenario': scenario.slim(sc)})
+        check_includes(ctx, sc['year'], r, {'scenario': scenario.slim(sc)})
         if len(ctx.samples) < 3:
             v = r.values
             ctx.sample({'year': sc['year'], 'forms': sorted(r.forms)[:8], 'example': {k_: v[k_] for k_ in ['1040.9', '1040.11', '1040.15', '1040.22', '1040.24'] if k_ in v}})
@@ -452,3 +505,4 @@ def replay(ctx, case):
     r = scenario.resolve(sc)
     if r.exc is None:
         check_solution(ctx, sc['year'], r, {'scenario': sc})
+        check_includes(ctx, sc['year'], r, {'scenario': sc})
